@@ -45,7 +45,10 @@ META = dict(
          "compressed wrapper blocks per codec, records in batches, through Fetch v0-v3 framing) set to len-1, len+1, 0, -1, "
          "MinInt32, len/2, 2*len, the inner-set length / CRC^1, CRC^msb, 0, other polynomial with everything around it "
          "recomputed: must be reported as an error unless the decoder flags a partial tail or a fetch block drops whole "
-         "trailing batches; mutated frames (length field 0..9, 2^31-1, around MaxResponseSize, truncated headers, wrong "
+         "trailing batches; after every successful decode of a Records / record batch / message set / fetch block the accessors a consumer "
+         "calls (numRecords, isPartial, isOverflow, isControl, getControlRecord, LastOffset, getAbortedTransactions) run under "
+         "the same guard; control and data batches re-encoded with 0 / 1 records (length and CRC right) through "
+         "Records.decode; mutated frames (length field 0..9, 2^31-1, around MaxResponseSize, truncated headers, wrong "
          "correlation id) through a real Broker over loopback for a v0- and a v1-header request; thorough adds every-byte bit flips and seeded random damage. "
          "Clauses no_panic, no_hang, alloc_proportional, crc_or_length_damage_is_error and the primitive contract are "
          "evaluated by TLC on every recorded outcome.",
